@@ -4,7 +4,8 @@
 (* operators keep the ORDER of the columns as the library does, because one of them - renaming a  *)
 (* column onto an existing one - has a result that depends on it.                                 *)
 (*                                                                                                *)
-(*   construction forms      XConstruct         records, header + rows, DataFrame, zip forms,     *)
+(*   construction forms      XConstruct         records, header + rows, values + one name,        *)
+(*                                              DataFrame, zip forms,                             *)
 (*                                              dictable(d, extra = ...)                          *)
 (*   reads (no effect)       XGetT XGetAttrT XTupleGetT XApplyT XIfElseT XReprT XDictConcatV             *)
 (*   allocating              XCallT (d(c = f, ...)), XDoXT, XRelabelT, XUnpivotT, XyzT, XExtendT       *)
@@ -107,6 +108,7 @@ XConstruct(s) ==
     CASE s.kind = "recs"  -> XFromRecords(s.recs)                         \* dictable([record, ...])
       [] s.kind = "cols"  -> FromCols(s.cols, s.args)                     \* dictable(dict) / dictable(zip(names, values))
       [] s.kind = "rows"  -> FromRows(s.rows, s.hdrs)                     \* dictable([header] + rows) / dictable(zip(*columns), names) / DataFrame
+      [] s.kind = "single" -> FromCols(<<s.name>>, <<<<"l", s.vals>>>>)     \* dictable(values, 'name'): one column of that name, however many values
       [] s.kind = "frame" -> LET f == FromRows(s.rows, s.hdrs).t IN      \* DataFrame with a named index: the index becomes the first column
                              Ok(Tbl(<<s.index>> \o SelectSeq(f.cols, LAMBDA c : c # s.index), f.rows))
 
